@@ -202,8 +202,10 @@ def run(ctx: Any, prog: Program) -> None:
                     why = (f'`{U(n)[:80]}` only refuses results that continue below the parent: the relative form of the parent directory itself is exactly ".." '
                            '(no separator), so walking ".." lists the files next to the root')
     if verdict is None:
-        raise AnalysisError(f'_resolve_path: containment test `{U(test)}` is not one of the enumerated idioms')
-    ctx.check('C18.S1', verdict, fs, guards[0], f'containment test `{U(test)[:120]}`: {why}', func='RawFileSystem._resolve_path', text='containment test')
+        # not a verdict on the containment test - but the clauses below (what is normalised, compared and returned) are still decided
+        ctx.shape('C18.S1', False, fs, guards[0], f'_resolve_path: containment test `{U(test)[:140]}` is not one of the enumerated idioms', func='RawFileSystem._resolve_path', text='containment test')
+    else:
+        ctx.check('C18.S1', verdict, fs, guards[0], f'containment test `{U(test)[:120]}`: {why}', func='RawFileSystem._resolve_path', text='containment test')
     # the comparison is on the exact spelling: on a case-sensitive file system `Root` and `ROOT` are different directories, so a test on folded
     # text accepts the sibling (os.path.normcase is the platform's own notion and is fine)
     folds_ = [n for n in ast.walk(test) if isinstance(n, ast.Call) and isinstance(n.func, ast.Attribute) and n.func.attr in ('casefold', 'lower', 'upper') and not n.args]
@@ -213,7 +215,7 @@ def run(ctx: Any, prog: Program) -> None:
     ok = all(isinstance(r.exc, ast.Call) and dotted(r.exc.func) == 'RootEscapeError' for r in raises) and bool(raises)
     ctx.check('C18.S3', ok, fs, raises[0] if raises else rp, '_resolve_path must raise RootEscapeError', func='RawFileSystem._resolve_path', text='raises RootEscapeError')
     ctx.shape('C18.S3', 'self.constrain_path' in U(test), fs, guards[0], 'the escape check must be active whenever constrain_path is set (and only then)', func='RawFileSystem._resolve_path', text='gated by constrain_path')
-    norm = [n for n in walk_no_nested(rp) if isinstance(n, ast.Assign) and isinstance(n.value, ast.Call) and dotted(n.value.func) in ('os.path.abspath', 'os.path.realpath')]
+    norm = [n for n in walk_no_nested(rp) if isinstance(n, ast.Assign) and isinstance(n.value, ast.Call) and dotted(n.value.func) in ('os.path.abspath', 'os.path.realpath', 'os.path.normpath')]       # the root is absolute: normpath(join(root, x)) is abspath(join(root, x))
     if len(norm) == 1 and isinstance(norm[0].value.args[0], ast.Name) and counts.get(norm[0].value.args[0].id) == 1:
         joined_expr = single[norm[0].value.args[0].id]        # `joined = os.path.join(...)` then abspath(joined)
     else:
@@ -228,6 +230,13 @@ def run(ctx: Any, prog: Program) -> None:
         stores = [n for n in walk_no_nested(rp) if isinstance(n, (ast.Assign, ast.AugAssign, ast.AnnAssign)) and any(isinstance(t, ast.Name) and t.id == var and isinstance(t.ctx, ast.Store) for t in ast.walk(n))]
         ctx.check('C18.S3', len(stores) == 1, fs, stores[-1] if stores else rp, f'`{var}` is assigned {len(stores)} times: the path handed to the OS must be exactly the normalised value the containment test saw '
                   '(a rewrite after the test, e.g. turning backslashes into separators, re-introduces ".." components)', func='RawFileSystem._resolve_path', text='checked value not rewritten')
+    # memoisation: the answer depends on the root AND on constrain_path (a public attribute).  FileSystem.__eq__/__hash__ look at type and
+    # root only, so a cache keyed by (self, name) hands the path an unconstrained instance resolved to every constrained instance of that root.
+    memo = [d for d in rp.decorator_list if 'cache' in U(d).lower()]
+    other_dec = [d for d in rp.decorator_list if d not in memo]
+    ctx.shape('C18.S3', not other_dec, fs, rp, f'_resolve_path carries decorators that are not modelled: {[U(d) for d in other_dec]}', func='RawFileSystem._resolve_path', text='not memoised')
+    ctx.check('C18.S3', not memo, fs, memo[0] if memo else rp, f'_resolve_path is memoised (`@{U(memo[0])[:50] if memo else ""}`): the key is (self, name) and filesystems compare equal by type and root alone, so a path that an '
+              'unconstrained RawFileSystem resolved (`../secret`) is returned from the cache to a constrained one on the same root without the containment test ever running', func='RawFileSystem._resolve_path', text='not memoised')
     dflt = {a.arg: d for a, d in zip(init.args.args[-len(init.args.defaults):], init.args.defaults)} if init.args.defaults else {}
     ok = isinstance(dflt.get('constrain_path'), ast.Constant) and dflt['constrain_path'].value is True and root_abs
     ctx.check('C18.S3', ok, fs, init, 'constrain_path must default to True and the root must be stored as an absolute path', func='RawFileSystem.__init__', text='constraint on by default, absolute root')
@@ -266,6 +275,9 @@ def run(ctx: Any, prog: Program) -> None:
 
 
 MUTANTS = [
+    {'id': 'ok_resolve_with_normpath_of_join', 'file': 'filesys.py', 'find': "        abs_path = os.path.abspath(os.path.join(self.path, path))\n", 'replace': "        abs_path = os.path.normpath(os.path.join(self.path, path))\n", 'expect': None},
+    {'id': 'resolve_path_lru_cached', 'file': 'filesys.py', 'find': "    def _resolve_path(self, path: str) -> str:", 'replace': "    @__import__('functools').lru_cache(maxsize=8192)\n    def _resolve_path(self, path: str) -> str:", 'expect': 'C18.S3'},
+    {'id': 'containment_on_relative_name', 'file': 'filesys.py', 'find': "        abs_path = os.path.abspath(os.path.join(self.path, path))\n        # Compare with a trailing separator, so sibling folders like \"root_other\" don't match \"root\".\n        if self.constrain_path and abs_path != self.path and not abs_path.startswith(os.path.join(self.path, '')):\n            raise RootEscapeError(self.path, path)\n        return abs_path", 'replace': "        rel_path = os.path.normpath(path)\n        if self.constrain_path and (rel_path == os.pardir or rel_path.startswith(os.pardir + os.sep)):\n            raise RootEscapeError(self.path, path)\n        return os.path.normpath(os.path.join(self.path, rel_path))", 'expect': 'C18.S3'},
     {'id': 'containment_on_folded_text', 'file': 'filesys.py', 'find': "        if self.constrain_path and abs_path != self.path and not abs_path.startswith(os.path.join(self.path, '')):", 'replace': "        if self.constrain_path and abs_path.lower() != self.path.lower() and not abs_path.lower().startswith(os.path.join(self.path.lower(), '')):", 'expect': 'C18.S1'},
     {'id': 'ok_containment_normcase', 'file': 'filesys.py', 'find': "        if self.constrain_path and abs_path != self.path and not abs_path.startswith(os.path.join(self.path, '')):", 'replace': "        if self.constrain_path and os.path.normcase(abs_path) != os.path.normcase(self.path) and not os.path.normcase(abs_path).startswith(os.path.join(os.path.normcase(self.path), '')):", 'expect': None},
     {'id': 'cached_prefix_from_raw_argument', 'file': 'filesys.py', 'find': "        self.constrain_path = constrain_path\n", 'replace': "        self.constrain_path = constrain_path\n        self._prefix = self.path if str(path).endswith((os.sep, '/')) else self.path + os.sep\n", 'extra': [{'file': 'filesys.py', 'find': "not abs_path.startswith(os.path.join(self.path, '')):", 'replace': "not abs_path.startswith(self._prefix):"}], 'expect': 'C18.S1'},
